@@ -70,8 +70,8 @@ Class(m, j) ==
   ELSE CASE m.type[j + 1] = "cont" -> "lc"
          [] m.type[j + 1] = "bin"  -> "lb"
          [] OTHER                  -> "li"
-\* NL variable order: nonlinear continuous, nonlinear integer; linear continuous, binary, other integer
 ClassVec(m) == [jj \in 1..m.n |-> Class(m, jj - 1)]
+\* NL variable order: nonlinear continuous, nonlinear integer; linear continuous, binary, other integer
 Rank(c) == CASE c = "nc" -> 0 [] c = "ni" -> 1 [] c = "lc" -> 2 [] c = "lb" -> 3 [] c = "li" -> 4
 Count(m, c) == Cardinality({j \in Cols(m) : Class(m, j) = c})
 Header(m) == [nlvo |-> Count(m, "nc") + Count(m, "ni"), nlio |-> Count(m, "ni"),
